@@ -5,7 +5,8 @@ resolved and executed on the REAL FibonacciHeap / MaxFibonacciHeap in worker pro
 operation the full pointer structure (root ring, child rings, marks, deleted flags, degree fields, parent
 pointers, _min, _n) is read by reflection together with the return value / exception class and len().
 Verdicts: Gallina `holds_C16` (reference multiset on the observed outputs alone) and `corr_C16` (lock-step
-replay of the structure-exact model) under vm_compute.  No property logic here.
+replay of the structure-exact model) under vm_compute.  The helpers utils.smallest / utils.largest are run on
+item lists and judged by `holds_C16s` / `corr_C16s`.  No property logic here.
 """
 import itertools
 import json
@@ -15,8 +16,9 @@ import random
 from harness import common
 
 PROP = 'C16'
-THEOREMS = ['C16', 'C16_min', 'C16_max', 'C16_no_error', 'C16_push', 'C16_pop', 'C16_peek', 'C16_decrease_key',
-            'C16_remove', 'C16_smallest', 'C16_largest']
+THEOREMS = ['C16_orders', 'C16', 'C16_operation', 'C16_op_spec_meaning', 'C16_min', 'C16_max', 'C16_push', 'C16_peek',
+            'C16_pop', 'C16_decrease_key', 'C16_remove', 'C16_Inv_meaning', 'C16_holds', 'C16_corr_holds',
+            'C16_smallest', 'C16_largest', 'C16_small_spec_meaning', 'C16_small_sound', 'C16_small_corr']
 HEADER = ('From Coq Require Import List Bool ZArith.\nRequire Import GT.PyBase GT.FibHeapSpec.\n'
           'Import ListNotations.\nOpen Scope Z_scope.\n')
 MODEL_IMPORT = 'Require Import GT.FibHeapModel.\n'
@@ -106,7 +108,36 @@ def impl_history(item):
     return {'max': mx, 'steps': steps}
 
 
+def impl_small(item):
+    """item = {'max': bool, 'keys': [...], 'n': int}: utils.largest / utils.smallest over the items
+    (position, key) with key=lambda it: it[1].  Returns the yielded items as [key, position]."""
+    from graphtage import utils
+    items = [(i, k) for i, k in enumerate(item['keys'])]
+    fn = utils.largest if item['max'] else utils.smallest
+    out = list(fn(items, n=item['n'], key=lambda it: it[1]))
+    return {'max': item['max'], 'keys': item['keys'], 'n': item['n'], 'out': [[it[1], it[0]] for it in out]}
+
+
 # ------------------------------------------------------------------ generators
+
+def gen_small_cases(tier, rng):
+    """smallest / largest: every key list over {0,1,2} up to a length bound with every n in -1..len+1, plus
+    long random lists with duplicates."""
+    cases = []
+    bound = 4 if tier == 'quick' else 6
+    for ln in range(bound + 1):
+        for keys in itertools.product([0, 1, 2], repeat=ln):
+            for n in range(-1, ln + 2):
+                for mx in (False, True):
+                    cases.append({'small': True, 'max': mx, 'keys': list(keys), 'n': n, 'src': 'small-exh'})
+    for _ in range(300 if tier == 'quick' else 3000):
+        ln = rng.choice([1, 2, 3, 5, 8, 13, 21, 34, 60, 120])
+        dom = rng.choice([2, 3, 5, 10, 1000])
+        keys = [rng.randrange(-dom, dom) for _ in range(ln)]
+        n = rng.choice([0, 1, 1, 2, 3, ln - 1, ln, ln + 1, rng.randrange(ln + 1)])
+        cases.append({'small': True, 'max': rng.random() < 0.5, 'keys': keys, 'n': n, 'src': 'small-random'})
+    return cases
+
 
 def gen_random_history(rng, max_len):
     """One symbolic history: key domain 2..40 (duplicates likely), mixed operation profile."""
@@ -209,6 +240,12 @@ def case_term(res):
     return f'(Build_case {cb(res["max"])} [{"; ".join(steps)}])'
 
 
+def scase_term(o):
+    keys = '; '.join(z(k) for k in o['keys'])
+    out = '; '.join(f'({z(a[0])}, {z(a[1])})' for a in o['out'])
+    return f'(Build_scase {cb(o["max"])} [{keys}] {z(o["n"])} [{out}])'
+
+
 def concrete(res):
     return {'max': res['max'], 'ops': [s['op'] for s in res['steps']],
             'returns': [s['ret'] for s in res['steps']], 'lens': [s['len'] for s in res['steps']]}
@@ -246,7 +283,42 @@ def gen_cases(tier, rng):
     return cases
 
 
+def run_small(run, wd, cases, st, tag):
+    """smallest / largest cases. Returns (kept, indices failing holds_C16s, indices failing corr_C16s)."""
+    if not cases:
+        return [], [], []
+    res = common.run_impl('pC16', 'impl_small', cases, timeout_item=60)
+    terms, keep = [], []
+    for c, r in zip(cases, res):
+        if 'ok' not in r:
+            run.violation({'kind': 'implementation-raised', 'small': True, 'max': c['max'], 'keys': c['keys'], 'n': c['n'],
+                           'result': r, 'replay': './check C16 --replay <this file>'})
+            continue
+        terms.append(scase_term(r['ok']))
+        keep.append((c, r['ok']))
+        run.count(['small', c['max'], c['keys'], c['n']], nontrivial=len(c['keys']) >= 2 and 0 < c['n'] < len(c['keys']))
+    evals = ['bad_cases holds_C16s']
+    header = HEADER
+    if st['models_ok']:
+        evals.append('bad_cases corr_C16s')
+        header += MODEL_IMPORT
+    bad, err = common.coq_eval_cases(wd, tag, header, terms, evals, chunk=max(8, len(terms) // 16 + 1))
+    if err:
+        run.violation({'kind': 'case-evaluation-failed', 'error': err}, no_input=True)
+        return keep, [], []
+    return keep, bad[0], (bad[1] if len(bad) > 1 else [])
+
+
 def run_cases(run, wd, cases, st, tag='cases'):
+    small = [c for c in cases if c.get('small')]
+    cases = [c for c in cases if not c.get('small')]
+    skeep, sbad_holds, sbad_corr = run_small(run, wd, small, st, tag + '_small')
+    for i in sbad_holds[:3]:
+        c, o = skeep[i]
+        run.violation({'kind': 'largest-wrong' if o['max'] else 'smallest-wrong', 'small': True, 'max': o['max'], 'keys': o['keys'],
+                       'n': o['n'], 'observed': o['out'], 'replay': './check C16 --replay <this file>'})
+    run.small_kept = getattr(run, 'small_kept', 0) + len(skeep)
+    run.small_bad_corr = getattr(run, 'small_bad_corr', []) + [skeep[i][1] for i in sbad_corr]
     res = common.run_impl('pC16', 'impl_history', cases, timeout_item=60)
     terms, keep = [], []
     for c, r in zip(cases, res):
@@ -310,14 +382,17 @@ def check(tier, seed):
     try:
         st = common.build(['theories/FibHeapModel.vo'], ['props/PropC16.vo'])
         common.proof_evidence(run, wd, PROP, st, THEOREMS)
-        cases = load_corpus() + gen_cases(tier, rng)
+        cases = load_corpus() + gen_cases(tier, rng) + gen_small_cases(tier, rng)
         keep, bad_holds, bad_corr = run_cases(run, wd, cases, st)
         report_holds(run, keep, bad_holds)
-        run.cov['traces_validated_against_impl'] = len(keep) if st['models_ok'] and not bad_corr else 0
+        run.cov['traces_validated_against_impl'] = (len(keep) + getattr(run, 'small_kept', 0)
+                                                    if st['models_ok'] and not bad_corr and not getattr(run, 'small_bad_corr', [])
+                                                    else 0)
         if st['broken'] and not run.violations:
             # tie broken and no failing input so far: search harder (thorough generator, more seeds)
             for s2 in range(3):
-                more = gen_cases('quick', random.Random(seed * 1000 + 17 + s2))
+                r2 = random.Random(seed * 1000 + 17 + s2)
+                more = gen_cases('quick', r2) + gen_small_cases('thorough' if s2 == 0 else 'quick', r2)
                 for c in more:
                     if c['src'] == 'random':
                         c['ops'] = c['ops'] + gen_random_history(random.Random(len(c['ops']) + s2), 200)
@@ -329,6 +404,12 @@ def check(tier, seed):
                     break
             if not run.violations:
                 run.violation({'kind': 'tie-broken', 'what': st['broken']}, no_input=True)
+        if getattr(run, 'small_bad_corr', []) and not run.violations:
+            o = run.small_bad_corr[0]
+            run.violation({'kind': 'correspondence-broken', 'small': True, 'max': o['max'], 'keys': o['keys'], 'n': o['n'],
+                           'what': 'corr_C16s: the items yielded by utils.smallest / utils.largest differ from the model '
+                                   '(push everything, pop n times) although they satisfy the statement',
+                           'disagreeing_cases': len(run.small_bad_corr), 'observed': o['out']}, no_input=True)
         if bad_corr and not run.violations:
             c, o = keep[bad_corr[0]]
             v = replayable(o)
@@ -347,7 +428,9 @@ def check(tier, seed):
                            'duplicates, lengths up to 200, relative and absolute key changes incl. rejected increases) plus exhaustive '
                            'histories over keys {0,1,2} (quick: 700 sampled of length 5; thorough: all of length 5 with two item ranks, all of '
                            'length 7 with one), each run on FibonacciHeap or MaxFibonacciHeap; every step is checked; non-trivial = at '
-                           'least 3 executed operations; distinct by (heap kind, concrete history)')
+                           'least 3 executed operations; distinct by (heap kind, concrete history). utils.smallest / utils.largest: every key '
+                           'list over {0,1,2} up to length 4 (thorough 6) with every n in -1..len+1, plus random lists up to length 120 '
+                           'with duplicates and negative keys; non-trivial = at least 2 items and 0 < n < len')
         run.cov['samples'] = [replayable(o) for _, o in keep[:2]] + [replayable(o) for _, o in keep[-1:]]
         run.cov['histories'] = len(keep)
         run.cov['operations_checked'] = steps
@@ -355,6 +438,7 @@ def check(tier, seed):
         run.cov['max_heap_histories'] = sum(1 for _, o in keep if o['max'])
         run.cov['largest_heap'] = max([s['len'] for _, o in keep for s in o['steps']] or [0])
         run.cov['by_source'] = {k: sum(1 for c, _ in keep if c['src'] == k) for k in ('corpus', 'exh5', 'exh7', 'random')}
+        run.cov['smallest_largest_cases'] = getattr(run, 'small_kept', 0)
         run.cov['exhaustive'] = (tier == 'thorough')
         run.assumptions = ['decrease_key / remove are only applied to members of the heap (the code documents anything else as '
                            'undefined behaviour and does not check); the model treats a non-member as a no-op',
@@ -370,6 +454,24 @@ def replay(path):
     wd = common.Workdir(PROP + 'r')
     try:
         st = common.build(['theories/FibHeapModel.vo'], [])
+        if obj.get('small'):
+            r = common.run_impl('pC16', 'impl_small', [{'max': obj['max'], 'keys': obj['keys'], 'n': obj['n']}], nproc=1)[0]
+            if 'ok' not in r:
+                print(json.dumps(r, indent=1)[:3000])
+                bad = True
+            else:
+                print(json.dumps(r['ok'])[:3000])
+                evals = ['bad_cases holds_C16s'] + (['bad_cases corr_C16s'] if st['models_ok'] else [])
+                b, err = common.coq_eval_cases(wd, 'replay', HEADER + (MODEL_IMPORT if st['models_ok'] else ''),
+                                               [scase_term(r['ok'])], evals)
+                bad = bool(err) or bool(b[0])
+                if not bad and len(b) > 1 and b[1]:
+                    print('replay: the property holds on this input but the yielded items differ from the model')
+            if bad:
+                print(f'VIOLATION property={PROP} replay={path}')
+                return 1
+            print('replay: property holds on this input')
+            return 0
         r = common.run_impl('pC16', 'impl_history', [{'max': obj['max'], 'ops': obj['ops']}], nproc=1)[0]
         if 'ok' not in r:
             print(json.dumps(r, indent=1)[:3000])
